@@ -573,7 +573,7 @@ def afb2d_nonsep(x, filts, mode='zero'):
             Nx += 1
         pad = (Ly-1, Lx-1)
         stride = (2, 2)
-        x = roll(roll(x, -Ly//2, dim=2), -Lx//2, dim=3)
+        x = roll(roll(x, -(Ly//2), dim=2), -(Lx//2), dim=3)
         y = F.conv2d(x, f, padding=pad, stride=stride, groups=C)
         y[:,:,:Ly//2] += y[:,:,Ny//2:Ny//2+Ly//2]
         y[:,:,:,:Lx//2] += y[:,:,:,Nx//2:Nx//2+Lx//2]
